@@ -159,6 +159,26 @@ class Extractor:
                 self.err(s, 'unexpected statement touching the save machinery')
         if not ok or the_if is None:
             raise Untranslatable(f'{SRC}: save branch of calculate_likelihood_and_derivatives not found')
+        # the compared value f and the gradient g are the ones returned by the engine: no statement
+        # between the engine call and the end of the save branch may assign them (e.g. scale them)
+        eng = None
+        for i, s in enumerate(fd.body):
+            if isinstance(s, ast.Assign) and len(s.targets) == 1 and isinstance(s.targets[0], ast.Tuple) \
+                    and [_dotted(e) for e in s.targets[0].elts] == ['f', 'g', 'h', 'bh'] \
+                    and isinstance(s.value, ast.Call) \
+                    and _dotted(s.value.func) == 'self.theC.calculateLikelihoodAndDerivatives':
+                if eng is not None:
+                    self.err(s, 'second engine call')
+                eng = i
+        if eng is None:
+            raise Untranslatable(f'{SRC}: f, g, h, bh = self.theC.calculateLikelihoodAndDerivatives(...) not found')
+        iif = fd.body.index(the_if)
+        if iif < eng:
+            self.err(the_if, 'the save branch precedes the engine call')
+        for s in fd.body[eng + 1: iif + 1]:
+            for n in ast.walk(s):
+                if isinstance(n, ast.Name) and isinstance(n.ctx, (ast.Store, ast.Del)) and n.id in ('f', 'g', 'x'):
+                    self.err(s, f'{n.id} is modified between the engine call and the save branch')
         # if not np.isfinite(gradnorm): <report only>  elif <cond>: <save>
         if not (len(the_if.orelse) == 1 and isinstance(the_if.orelse[0], ast.If) and not the_if.orelse[0].orelse):
             self.err(the_if, 'expected  if <non finite>: ... elif <cond>: ...  without else')
@@ -244,6 +264,7 @@ class Extractor:
                 for k in call.keywords:
                     if k.arg != 'encoding':
                         self.err(s, f'unexpected keyword {k.arg} of open')
+                self.write_encoding = self._encoding(call)
                 nm, t = tr.expr(call.args[0], env)
                 if t != 'string':
                     self.err(s, 'file name is not a string')
@@ -284,6 +305,17 @@ class Extractor:
         steps = ('Definition gen_steps (iter_file_name : string) (lines : list string) : list fsop :=\n'
                  f'  {code}.\n')
         return steps, self._line
+
+    def _encoding(self, call):
+        """the codec of an open(...) call; the model identifies written and read text, which needs the SAME
+        explicit codec on both sides (the locale's default is not UTF-8 everywhere)"""
+        enc = [k.value for k in call.keywords if k.arg == 'encoding']
+        if len(enc) != 1 or not (isinstance(enc[0], ast.Constant) and isinstance(enc[0].value, str)):
+            self.err(call, 'open() without an explicit constant encoding (the locale default would be used)')
+        e = enc[0].value.lower().replace('_', '-')
+        if e not in ('utf-8', 'utf8'):
+            self.err(call, f'encoding {enc[0].value!r}: parameter names that this codec cannot represent are not modelled')
+        return 'utf-8'
 
     def _fn_call(self, tr, node, args):
         if node.args or node.keywords:
@@ -342,6 +374,7 @@ class Extractor:
         if not (isinstance(oc, ast.Call) and _dotted(oc.func) == 'open' and len(oc.args) == 1
                 and _dotted(oc.args[0]) == 'filename' and all(k.arg == 'encoding' for k in oc.keywords)):
             self.err(w, 'expected open(filename, encoding=...) (text mode, reading)')
+        self.read_encoding = self._encoding(oc)
         if not (len(w.body) == 1 and isinstance(w.body[0], ast.For) and isinstance(w.body[0].target, ast.Name)
                 and _dotted(w.body[0].iter) == fp and not w.body[0].orelse and len(w.body[0].body) == 2):
             self.err(w, 'expected  for line in fp: <two statements>')
@@ -446,10 +479,12 @@ class Extractor:
         k = loops[0]
         loop = body[k]
         after = list(body[k + 1:])
+        n_final = 0
         if isinstance(loop, ast.Try):
             if loop.handlers or loop.orelse:
                 self.err(loop, 'unexpected except/else on the bootstrap try')
             inner = loop.body
+            n_final = len(loop.finalbody)
             after = list(loop.finalbody) + after
         else:
             inner = [loop]
@@ -468,12 +503,16 @@ class Extractor:
                 self.err(s, 'unexpected use of _saving_suspended')
         set_false = False
         restores = False
-        for s in after:
+        abort_resumes = False
+        abort_restores = False
+        for pos, s in enumerate(after):
+            in_finally = pos < n_final  # executed also when the loop is left by an exception
             v = _assign_of(s, 'self._saving_suspended')
             if v is not None:
                 if not (isinstance(v, ast.Constant) and v.value is False):
                     self.err(s, 'expected self._saving_suspended = False')
                 set_false = True
+                abort_resumes = abort_resumes or in_finally
                 continue
             if _mentions(s, {'_saving_suspended'}):
                 self.err(s, 'unexpected use of _saving_suspended')
@@ -487,15 +526,16 @@ class Extractor:
                         and _dotted(a.args[0]) == 'self.database.individualMap' \
                         and _dotted(b.args[0]) == 'self.database.data':
                     restores = True
+                    abort_restores = abort_restores or in_finally
                     continue
             if any(isinstance(n, ast.Call) and (_dotted(n.func) or '').startswith('self.theC.setData')
                    for n in ast.walk(s)):
                 self.err(s, 'unrecognised data transfer to the engine after the bootstrap loop')
         if set_true != set_false:
             self.err(blocks[0], '_saving_suspended is set but not reset (or reset but not set) around the bootstrap loop')
-        if set_true and not isinstance(loop, ast.Try):
-            self.err(loop, '_saving_suspended is not reset in a finally clause')
-        return set_true, restores
+        if not set_true:
+            abort_resumes = True  # never suspended: nothing to resume
+        return set_true, restores, abort_resumes, abort_restores
 
     # ------------------------------------------------------------------ all
     def generate(self):
@@ -509,18 +549,23 @@ class Extractor:
         ]
         est = self.prologue('estimate')
         qck = self.prologue('quick_estimate')
-        susp, rest = self.bootstrap()
+        susp, rest, ab_res, ab_rest = self.bootstrap()
+        if getattr(self, 'write_encoding', None) != getattr(self, 'read_encoding', None):
+            raise Untranslatable(f'{SRC}: the iteration file is written and read with different codecs')
         b = lambda x: 'true' if x else 'false'
         parts.append(
             f'Definition gen_estimate : list startop := [{"; ".join(est)}].\n'
             f'Definition gen_quick : list startop := [{"; ".join(qck)}].\n'
             f'Definition gen_boot_suspends : bool := {b(susp)}.\n'
             f'Definition gen_boot_restores : bool := {b(rest)}.\n'
+            f'Definition gen_abort_resumes : bool := {b(ab_res)}.\n'
+            f'Definition gen_abort_restores : bool := {b(ab_rest)}.\n'
             'Definition the_code : code := {|\n'
             '  c_file_name := gen_file_name; c_guard := gen_guard; c_mark0 := gen_mark0; c_test := gen_test;\n'
             '  c_mark1 := gen_mark1; c_steps := gen_steps; c_line := gen_line; c_parse := gen_parse;\n'
             '  c_estimate := gen_estimate; c_quick := gen_quick;\n'
-            '  c_boot_suspends := gen_boot_suspends; c_boot_restores := gen_boot_restores |}.\n')
+            '  c_boot_suspends := gen_boot_suspends; c_boot_restores := gen_boot_restores;\n'
+            '  c_abort_resumes := gen_abort_resumes; c_abort_restores := gen_abort_restores |}.\n')
         return '\n'.join(parts)
 
 
@@ -544,8 +589,12 @@ ASSUME = [
     'checked on every value of every stream)',
     'A3: str(v) of a double has no white space at its ends, no "=" and no line break (Section hypotheses; checked on '
     'every value of every stream)',
-    'parameter names have no line break and no white space at their ends (they may contain "="); free parameter '
-    'names are distinct',
+    'parameter names have no line break and no white space (Unicode white space included) at their ends (they may '
+    'contain "=" and non-ASCII characters: strings are byte sequences in the model, the file is UTF-8 on both sides -- '
+    'the extractor refuses an open() without explicit utf-8 encoding); free parameter names are distinct; the MODEL '
+    'name must be representable in the file-system encoding of the process',
+    'an exception may leave estimate()/quick_estimate() anywhere (BootstrapAbort when inside the bootstrap loop); the '
+    'object stays usable',
     'the log likelihood is not NaN at a point whose gradient norm is finite (hypothesis f_not_nan of T15a/T15c)',
     'a write is modelled byte by byte (every prefix of the content is a possible crash state); a crash is the end of '
     'the process (page cache survives), not a power failure: durability (fsync) is outside the property',
@@ -583,6 +632,49 @@ def txt(h):
     """str(v) of the double as numpy prints it (x is a numpy array in the implementation)"""
     import numpy as np
     return str(np.float64(unhex(h)))
+
+
+def enc(n):
+    """a (possibly non-ASCII) name as the bytes written to the UTF-8 file, one latin-1 character per byte: the
+    representation used for file contents everywhere in the harness and for strings in the model"""
+    return n.encode('utf-8').decode('latin-1')
+
+
+def dec(b):
+    """inverse of enc on whole file contents; None when the bytes are not UTF-8"""
+    try:
+        return b.encode('latin-1').decode('utf-8')
+    except (UnicodeDecodeError, UnicodeEncodeError):
+        return None
+
+
+# a process whose preferred encoding is NOT UTF-8 (C locale, UTF-8 mode off): open() without an explicit
+# encoding then uses ASCII.  stdio stays UTF-8 so that progress bars cannot fail.
+C_LOCALE = {'LC_ALL': 'C', 'LANG': 'C', 'PYTHONUTF8': '0', 'PYTHONCOERCECLOCALE': '0', 'PYTHONIOENCODING': 'utf-8'}
+
+
+def run_sessions(ctx, mode, sessions, nb, timeout=1500):
+    """run the sessions in nb batches per locale group, all batches side by side"""
+    from concurrent.futures import ThreadPoolExecutor
+    groups = {False: [], True: []}
+    for i, s_ in enumerate(sessions):
+        groups[bool(s_.get('clocale'))].append(i)
+    jobs = []
+    for flag, idx in groups.items():
+        if not idx:
+            continue
+        n = max(1, min(nb, len(idx)) if not flag else max(1, min(nb // 2, len(idx))))
+        B = (len(idx) + n - 1) // n
+        for j in range(0, len(idx), B):
+            jobs.append((flag, idx[j:j + B]))
+    out = [None] * len(sessions)
+    with ThreadPoolExecutor(max_workers=max(1, len(jobs))) as ex:
+        futs = [(idx, ex.submit(ctx.impl, 'c15_iter.py', {'mode': mode, 'sessions': [sessions[i] for i in idx]},
+                                timeout, C_LOCALE if flag else None)) for flag, idx in jobs]
+        for idx, f in futs:
+            for i, r in zip(idx, f.result()):
+                out[i] = r
+    return out
 
 
 def cs(s):
@@ -714,7 +806,7 @@ CASE_TYPES = {
 
 
 def ccfg(sess):
-    return ('{| cf_names := ' + coq_list([cs(n) for n in sess['names']]) + '; cf_model := ' + cs(sess['model'])
+    return ('{| cf_names := ' + coq_list([cs(enc(n)) for n in sess['names']]) + '; cf_model := ' + cs(sess['model'])
             + '; cf_save := ' + ('true' if sess['save'] else 'false') + '; cf_init0 := ' + cvec(sess['init']) + ' |}')
 
 
@@ -751,7 +843,7 @@ class Hist:
         self.unmodelled = False
 
     def lines(self, x):
-        return ''.join(f'{n} = {txt(v)}\n' for n, v in zip(self.sess['names'], x))
+        return ''.join(f'{enc(n)} = {txt(v)}\n' for n, v in zip(self.sess['names'], x))
 
     def best(self):
         b = None
@@ -821,7 +913,7 @@ class Hist:
         elif f is not None and b is not None:
             # bit for bit after re-reading
             try:
-                vals = [float(l.rsplit('=', 1)[1]) for l in f.splitlines()]
+                vals = [float(l.rsplit('=', 1)[1]) for l in f.split('\n') if l]
                 ok = len(vals) == len(b[0]) and all(fhex(a) == fhex(unhex(c)) for a, c in zip(vals, b[0]))
             except Exception:  # noqa
                 ok = False
@@ -852,6 +944,8 @@ class Hist:
                 self.kinds.add('nonfinite')
             if self.inboot:
                 self.kinds.add('boot')
+            if rec.get('scaled'):
+                self.kinds.add('scaled')
         else:
             self.add(('Eval', x, 'nan', False), obs, label)
             if len(x) == n or rec.get('exc') != 'ValueError':
@@ -884,26 +978,23 @@ class Hist:
                         self.add('BootstrapBegin', None, label)
                     self.inboot = True
                     continue
-                if inn.get('scaled'):
-                    raise RuntimeError('the optimiser asked for a scaled likelihood: f is not the compared value')
                 self.do_eval(inn['x'], inn, inn, f'{label} evaluation {j}')
             if self.inboot:
-                self.add('BootstrapEnd', None, label)
+                # left by an exception: only the `finally` clause of the loop has run
+                self.add('BootstrapAbort' if rec.get('interrupted') else 'BootstrapEnd', None, label)
                 self.inboot = False
-            if not rec.get('ok'):
+                if rec.get('interrupted'):
+                    self.kinds.add('abort')
+            if rec.get('interrupted'):
+                self.kinds.add('interrupted')
+            elif not rec.get('ok'):
                 self.viol.append(('C15/iter/estimation-raised', f'{kind} raised {rec.get("exc")}: {rec.get("msg")}', label))
             self.add('Observe', rec, label)
             self.observe_file(rec, label)
             # a later estimation starts from the saved values
-            if rec.get('ok') and self.sess['save'] and file_before is not None:
-                try:
-                    d = {}
-                    for l in file_before.splitlines(keepends=True):
-                        a, b = l.rsplit('=', 1)
-                        d[a.strip()] = float(b)
-                    exp = [fhex(d[n]) if n in d else None for n in self.sess['names']]
-                except Exception:  # noqa
-                    exp = None
+            if (rec.get('ok') or rec.get('interrupted')) and self.sess['save'] and file_before is not None:
+                d = reference_dict(file_before)
+                exp = None if d is None else [fhex(d[n]) if n in d else None for n in self.sess['names']]
                 if exp is not None:
                     got = rec.get('init')
                     inner = [r for r in rec.get('inner', []) if 'x' in r]
@@ -914,6 +1005,19 @@ class Hist:
                                           f'{kind} did not start from the values saved in the iteration file',
                                           {'where': label, 'file': file_before, 'starting_values': [unhex(g) for g in got],
                                            'first_evaluation': None if first is None else [unhex(v) for v in first]}))
+        elif kind in ('findiff', 'checkder'):
+            # other public entry points that evaluate the derivatives: their evaluations count like any other
+            self.kinds.add(kind)
+            for j, inn in enumerate(rec.get('inner', [])):
+                if 'harness_exc' in inn:
+                    raise RuntimeError('implementation wrapper failed: ' + inn['harness_exc'])
+                if 'x' in inn:
+                    self.do_eval(inn['x'], inn, inn, f'{label} evaluation {j}')
+            if not rec.get('ok') and not rec.get('interrupted') and all(math.isfinite(unhex(v)) for v in op['x']) \
+                    and len(op['x']) == len(self.sess['names']):
+                self.viol.append(('C15/iter/evaluation-raised', f'{kind} raised {rec.get("exc")}: {rec.get("msg")}', label))
+            self.add('Observe', rec, label)
+            self.observe_file(rec, label)
         elif kind == 'load':
             self.add('Observe', None, label)
             if rec.get('ok') and self.prev_file is not None:
@@ -942,7 +1046,9 @@ class Hist:
 
 
 # ---------------------------------------------------------------------------- generators
-NAME_POOL = ['b1', 'b2', 'asc_car', 'B_TIME', 'beta=1', 'x = y', 'a.b', 'z_9', 'lambda', '=', 'mu[1]', 'b 3']
+NAME_POOL = ['b1', 'b2', 'asc_car', 'B_TIME', 'beta=1', 'x = y', 'a.b', 'z_9', 'lambda', '=', 'mu[1]', 'b 3',
+             # not pure ASCII (2-, 3- and 4-byte UTF-8; a last byte 0xA0 / 0x85 that a byte-wise strip would eat)
+             '\u03b2_time', '\u00e9 x', 'na\u00efve=1', '\u00df', '\u00e0', 'co\u00fbt_\u0105', '\u65e5\u672c', '\U0001d6fd1', '\u0445=\u0443']
 MODEL_POOL = ['m', 'my model', 'a.b', 'logit_01', 'M=1']
 
 
@@ -977,10 +1083,23 @@ def gen_session(rng, long=False, with_delete=False):
     pre = None
     if rng.random() < 0.4:
         x0 = zeros(rng, [dy(rng) for _ in range(k)], 0.4)
-        pre = ''.join(f'{n} = {txt(fhex(v))}\n' for n, v in zip(names, x0))
+        pre = ''.join(f'{enc(n)} = {txt(fhex(v))}\n' for n, v in zip(names, x0))
     sess['pre_file'] = pre
+    # half of the sessions run in a process whose preferred encoding is not UTF-8
+    sess['clocale'] = rng.random() < 0.5
     ops = [{'op': 'new'}]
     last = None
+
+    def interrupt(op):
+        """with some probability the call is left by an exception: right after its j-th evaluation (wherever
+        that falls: main optimisation, final hessian, a bootstrap re-estimation) or at a resampling"""
+        r_ = rng.random()
+        if r_ < 0.22:
+            op['interrupt_at'] = rng.randint(1, 9)
+        elif r_ < 0.30 and op['op'] == 'estimate_boot':
+            op['interrupt_sample'] = rng.randint(1, 3)
+        return op
+
     n_ops = rng.randint(6, 14) if not long else rng.randint(15, 40)
     for _ in range(n_ops):
         r = rng.random()
@@ -1009,17 +1128,30 @@ def gen_session(rng, long=False, with_delete=False):
             if len(x) == k and all(math.isfinite(v) for v in x) and x[0] != 0.1:
                 x = zeros(rng, x, 0.15)
                 last = x
-            ops.append({'op': 'eval', 'x': [fhex(v) for v in x]})
+            e = {'op': 'eval', 'x': [fhex(v) for v in x]}
+            # the public API: per-observation values (scaled=True), hessian / BHHH requested, deprecated alias.
+            # The marker always compares TOTALS, whatever the caller asks for.
+            if rng.random() < 0.35:
+                e['scaled'] = True
+            if rng.random() < 0.15:
+                e['hessian'] = True
+            if rng.random() < 0.10:
+                e['bhhh'] = True
+            if rng.random() < 0.08:
+                e['alias'] = True
+            ops.append(e)
+        elif r < 0.66 and last is not None:
+            ops.append({'op': rng.choice(['findiff', 'checkder']), 'x': [fhex(v) for v in last]})
         elif r < 0.74:
             if with_delete and rng.random() < 0.6:
                 ops.append({'op': 'delete_file'})
-            ops.append({'op': 'estimate'})
+            ops.append(interrupt({'op': 'estimate'}))
             last = None
-        elif r < 0.82:
-            ops.append({'op': 'estimate_boot'})
+        elif r < 0.83:
+            ops.append(interrupt({'op': 'estimate_boot'}))
             last = None
         elif r < 0.91:
-            ops.append({'op': 'quick'})
+            ops.append(interrupt({'op': 'quick'}))
             last = None
         else:
             ops.append({'op': 'new'})
@@ -1084,11 +1216,7 @@ def stream_iter(ctx):
     rng = ctx.sub_rng('iter')
     sessions = load_corpus('iter') + [gen_session(rng) for _ in range(ctx.n(48, 1500))] \
         + [gen_session(rng, long=True) for _ in range(ctx.n(6, 200))]
-    nb = ctx.n(8, 16)
-    B = max(1, (len(sessions) + nb - 1) // nb)
-    batches = [sessions[i:i + B] for i in range(0, len(sessions), B)]
-    results = ctx.impl_parallel('c15_iter.py', [{'mode': 'iter', 'sessions': b} for b in batches], timeout=1500)
-    results = [r for batch in results for r in batch]
+    results = run_sessions(ctx, 'iter', sessions, ctx.n(8, 16))
     cases = []
     for sess, res in zip(sessions, results):
         if 'harness_exc' in res:
@@ -1103,7 +1231,13 @@ def stream_iter(ctx):
             h.feed(i, op, rec)
         key = {'names': sess['names'], 'model': sess['model'], 'ops': sess['ops'], 'pre': sess.get('pre_file')}
         st.record(key, nontrivial=len(h.kinds & {'counted'}) > 0 and h.n_eval >= 3
-                  and bool(h.kinds & {'nonfinite', 'boot', 'badlen', 'estimate', 'quick', 'estimate_boot'}))
+                  and bool(h.kinds & {'nonfinite', 'boot', 'badlen', 'estimate', 'quick', 'estimate_boot', 'scaled',
+                                      'findiff', 'checkder', 'abort', 'interrupted'}))
+        for kd in h.kinds:
+            st.extra.setdefault('sessions_with', {}).setdefault(kd, 0)
+            st.extra['sessions_with'][kd] += 1
+        if sess.get('clocale') and any(ord(ch) > 127 for n in sess['names'] for ch in n):
+            st.extra['sessions_non_ascii_names_in_C_locale'] = st.extra.get('sessions_non_ascii_names_in_C_locale', 0) + 1
         report(ctx, h.viol, sess, 'iter')
         cases.append((h.coq(sess.get('pre_file')), len(h.labels()), sess, h.labels(), 'run_case'))
     st.extra['evaluations_inside_sessions'] = sum(c[1] for c in cases)
@@ -1127,12 +1261,13 @@ def gen_parse_case(rng):
     names = sorted(rng.sample(NAME_POOL, k))
     init = [dy(rng) for _ in range(k)]
     sess = {'names': names, 'targets': [fhex(1.0)] * k, 'init': [fhex(v) for v in init], 'weights': [[1.0]] * k,
-            'rows': 1, 'model': rng.choice(MODEL_POOL), 'save': True, 'div': False}
+            'rows': 1, 'model': rng.choice(MODEL_POOL), 'save': True, 'div': False,
+            'clocale': rng.random() < 0.5}
     lines = []
     pool = names + rng.sample(NAME_POOL, 2)
     ok = True
     for _ in range(rng.randint(0, 5)):
-        n = rng.choice(pool)
+        n = enc(rng.choice(pool))
         v = rng.choice([dy(rng), dy(rng, bits=10) * 1e-7, 1e22, float('inf'), -0.0, 0.0, 0.0, 123456.789, 1 / 3])
         t = txt(fhex(v))
         r = rng.random()
@@ -1159,19 +1294,30 @@ def gen_parse_case(rng):
     return sess, content
 
 
-def reference_load(names, init, content):
-    """the property, for a reader of `name = value` lines: EVERY name present in the file overrides the
-    starting value, whatever the value (0.0 and -0.0 included); other names keep their default.
-    Returns the list of hex doubles, or None when some line is not of that form."""
+def reference_dict(content):
+    """the property, for a reader of `name = value` lines: the dict name -> double of a file (given as the
+    latin-1 image of its bytes), or None when the bytes are not UTF-8 or some line is not of that form"""
+    text = dec(content)
+    if text is None:
+        return None
     d = {}
     try:
-        lines = content.split('\n')
+        lines = text.split('\n')
         if lines[-1] == '':
             lines.pop()
         for l in lines:
             a, b = l.rsplit('=', 1)
-            d[a.strip()] = float(b)
+            d[a.strip(' \t\r\x0b\x0c')] = float(b)
     except Exception:  # noqa
+        return None
+    return d
+
+
+def reference_load(names, init, content):
+    """EVERY name present in the file overrides the starting value, whatever the value (0.0 and -0.0
+    included); other names keep their default.  Returns the list of hex doubles, or None."""
+    d = reference_dict(content)
+    if d is None:
         return None
     return [fhex(d[n]) if n in d else i for n, i in zip(names, init)]
 
@@ -1196,11 +1342,7 @@ def stream_parse(ctx):
     nsess = [{'names': ['b1'], 'targets': [fhex(1.0)], 'init': [fhex(0.5)], 'weights': [[1.0]], 'rows': 1, 'model': m,
               'save': True, 'div': False, 'ops': [{'op': 'new'}]} for m in names]
     allsess = sessions + nsess
-    nb = ctx.n(6, 16)
-    B = max(1, (len(allsess) + nb - 1) // nb)
-    batches = [allsess[i:i + B] for i in range(0, len(allsess), B)]
-    results = ctx.impl_parallel('c15_iter.py', [{'mode': 'iter', 'sessions': b} for b in batches], timeout=900)
-    results = [r for batch in results for r in batch]
+    results = run_sessions(ctx, 'iter', allsess, ctx.n(6, 16), timeout=900)
     nres = results[len(sessions):]
     results = results[:len(sessions)]
     items = []
@@ -1246,11 +1388,12 @@ def gen_crash_scenario(rng, use_estimate):
     init = [dy(rng) for _ in range(k)]
     weights = [[rng.choice([0.5, 1.0, 2.0]) for _ in range(2)] for _ in range(k)]
     sess = {'names': names, 'targets': [fhex(t) for t in targets], 'init': [fhex(v) for v in init], 'weights': weights,
-            'rows': 2, 'model': rng.choice(MODEL_POOL), 'save': True, 'seed': 1, 'bootstrap_samples': 1, 'div': True}
+            'rows': 2, 'model': rng.choice(MODEL_POOL), 'save': True, 'seed': 1, 'bootstrap_samples': 1, 'div': True,
+            'clocale': rng.random() < 0.5}
     pre = None
     if rng.random() < 0.5:
         x0 = zeros(rng, [dy(rng) for _ in range(k)], 0.4)
-        pre = ''.join(f'{n} = {txt(fhex(v))}\n' for n, v in zip(names, x0))
+        pre = ''.join(f'{enc(n)} = {txt(fhex(v))}\n' for n, v in zip(names, x0))
     sess['pre_file'] = pre
     if use_estimate:
         sess['ops'] = [{'op': 'new'}, {'op': rng.choice(['estimate', 'quick'])}]
@@ -1266,7 +1409,10 @@ def gen_crash_scenario(rng, use_estimate):
                 x = [t + dy(rng, -8, 8) for t in targets]
             else:
                 x = [0.1] + targets[1:]
-            ops.append({'op': 'eval', 'x': [fhex(v) for v in x]})
+            e = {'op': 'eval', 'x': [fhex(v) for v in x]}
+            if rng.random() < 0.3:
+                e['scaled'] = True
+            ops.append(e)
         sess['ops'] = ops
     sess['restart_ops'] = [{'op': 'new'}, {'op': 'estimate'}]
     return sess
@@ -1342,7 +1488,7 @@ def stream_crash(ctx):
                     'non-trivial = crash strictly inside a save (after open, before replace); distinct by (scenario, j, k)')
     rng = ctx.sub_rng('crash')
     scenarios = load_corpus('crash') + [gen_crash_scenario(rng, use_estimate=(i % 2 == 1)) for i in range(ctx.n(4, 80))]
-    dry = ctx.impl('c15_iter.py', {'mode': 'iter', 'sessions': scenarios}, timeout=900)
+    dry = run_sessions(ctx, 'iter', scenarios, 2, timeout=900)
     sessions = []
     meta = []
     for sc, d in zip(scenarios, dry):
@@ -1369,7 +1515,7 @@ def stream_crash(ctx):
                 if not saves:
                     continue
                 marker = r['f']
-                content = ''.join(f'{nm} = {txt(v)}\n' for nm, v in zip(sc['names'], x))
+                content = ''.join(f'{enc(nm)} = {txt(v)}\n' for nm, v in zip(sc['names'], x))
                 L = len(content)
                 points = [('byte', b) for b in range(0, L + 1)] + [('before_replace',), ('after_replace',)]
                 if ctx.quick and len(points) > 14 and '_corpus' not in sc:
@@ -1385,11 +1531,7 @@ def stream_crash(ctx):
                                  'new': content})
                 prev = content
                 j += 1
-    nb = ctx.n(12, 32)
-    B = max(1, (len(sessions) + nb - 1) // nb)
-    batches = [sessions[i:i + B] for i in range(0, len(sessions), B)]
-    results = ctx.impl_parallel('c15_iter.py', [{'mode': 'crash', 'sessions': b} for b in batches], timeout=1500)
-    results = [r for batch in results for r in batch]
+    results = run_sessions(ctx, 'crash', sessions, ctx.n(12, 32))
     cases = []
     for s2, m, res in zip(sessions, meta, results):
         if 'harness_exc' in res:
@@ -1468,7 +1610,7 @@ def stream_kill(ctx):
         after = res['after_crash']
         st.record({'delay': sess['delay'], 'xs': sess['xs']}, nontrivial=after['file'] is not None)
         wit = {'mode': 'kill', 'session': sess}
-        allowed = [''.join(f'{n} = {txt(v)}\n' for n, v in zip(sess['names'], x)) for x in sess['xs']]
+        allowed = [''.join(f'{enc(n)} = {txt(v)}\n' for n, v in zip(sess['names'], x)) for x in sess['xs']]
         if after['file'] is not None and after['file'] not in allowed:
             ctx.violation('C15/crash/torn-file', 'SIGKILL left an incomplete iteration file', wit, allowed, after)
         b = res['b']
@@ -1487,10 +1629,7 @@ def search_after_break(ctx):
     rng = ctx.sub_rng('search')
     sessions = load_corpus('iter') + [gen_session(rng, long=(i % 3 == 0), with_delete=(i % 2 == 0))
                                       for i in range(ctx.n(150, 1500))]
-    B = max(1, (len(sessions) + 15) // 16)
-    batches = [sessions[i:i + B] for i in range(0, len(sessions), B)]
-    results = ctx.impl_parallel('c15_iter.py', [{'mode': 'iter', 'sessions': b} for b in batches], timeout=1500)
-    results = [r for batch in results for r in batch]
+    results = run_sessions(ctx, 'iter', sessions, 16)
     for sess, res in zip(sessions, results):
         if 'harness_exc' in res:
             continue
@@ -1543,24 +1682,24 @@ def replay(ctx, path):
         print('replay: this file names an obligation/stream; re-run ./check C15')
         return 2
     mode, sess = wit['mode'], wit['session']
+    env = C_LOCALE if sess.get('clocale') else None
     bad = []
     if mode == 'iter':
-        res = ctx.impl('c15_iter.py', {'mode': 'iter', 'sessions': [sess]})[0]
+        res = ctx.impl('c15_iter.py', {'mode': 'iter', 'sessions': [sess]}, extra_env=env)[0]
         h = Hist(sess, sess.get('pre_file'))
         for i, (op, rec) in enumerate(zip(sess['ops'], res['steps'])):
             h.feed(i, op, rec)
         bad = [(k, what) for k, what, _ in h.viol]
     elif mode == 'crash':
-        res = ctx.impl('c15_iter.py', {'mode': 'crash', 'sessions': [sess]})[0]
-        dry = ctx.impl('c15_iter.py', {'mode': 'iter', 'sessions': [{k: v for k, v in sess.items() if k != 'plan'}]})[0]
+        res = ctx.impl('c15_iter.py', {'mode': 'crash', 'sessions': [sess]}, extra_env=env)[0]
         after = res['after_crash']
         b = res['b']
         if res['b_exit'] != 0 or b is None or 'steps' not in b or not b['steps'][-1].get('ok'):
             bad.append(('C15/crash/restart-failed', str(b)[:300]))
         f = after['file']
         if f is not None:
-            lines = f.splitlines(keepends=True)
-            okf = len(lines) == len(sess['names']) and all(l.endswith('\n') and l.rsplit('=', 1)[0].strip() == n
+            lines = [l + '\n' for l in f.split('\n')[:-1]] + ([f.split('\n')[-1]] if f.split('\n')[-1] else [])
+            okf = len(lines) == len(sess['names']) and all(l.endswith('\n') and l.rsplit('=', 1)[0].strip(' \t') == enc(n)
                                                            for l, n in zip(lines, sess['names']))
             try:
                 [float(l.rsplit('=', 1)[1]) for l in lines]
